@@ -35,7 +35,7 @@ def check_cfg(ctx, fx, cfg):
     for f, kind in loops.find_loops(fx):
         up = f.get("upvars", [])
         inst = "%s-loop@%s" % (kind, cfg)
-        ok = sum(1 for u in up if u.startswith("context::Context<")) == 1 and "context::StopNotifier" in up and any("poll_fn::PollFn<" in u and loops.PAYLOAD in u for u in up)
+        ok = sum(1 for u in up if u.startswith("context::Context<")) == 1 and "context::StopNotifier" in up and len(loops.mailbox_rx_captures(fx, f)) == 1
         ctx.require(ok, "R06.1", inst + ":owns", "the loop future must own context, notifier and receiver so that every exit releases them", fn=f["def"], site=f["loc"], detail=[u[:50] for u in up])
         # nobody else holds the receiver / notifier: they are not Clone and live in one place
     run_loops(ctx, fx, "R06.1", {"L3", "L6", "L11"})
